@@ -83,9 +83,10 @@ def mon_bc(args, kwargs, result, tok):
     ex = {"gamma": g, "dir": dirv if not two_d else "2d"}
     if name == "sym":
         ctx.true(nm, np.array_equal(r1, r0) and np.array_equal(p1, p0), nm + "/thermodynamic-state-not-copied", None, cls=nm)
-        sc = q0 + c0
-        _chk(ctx, nm, "normal-velocity", un1, -un0, sc, "normal-velocity-not-reversed", adm, ex)
-        _chk(ctx, nm, "tangential-velocity", ut1, ut0, sc, "tangential-velocity-changed", adm, ex)
+        # the reversal is an exact operation on the normal component (axis-aligned normals): judged relative to that component ITSELF,
+        # so that a nearly-at-rest state (acoustics: |u| ~ 1e-9 c) is held to the same standard as a fast one
+        _chk(ctx, nm, "normal-velocity", un1, -un0, np.abs(un0) + 1e-300, "normal-velocity-not-reversed", adm, ex)
+        _chk(ctx, nm, "tangential-velocity", ut1, ut0, np.abs(ut0) + 1e-300, "tangential-velocity-changed", adm, ex)
         with probes.quiet():       # no mass / energy crosses the wall, through the real flux functions
             for fl in (("centered", "hlle") if two_d else ("centered", "centeredmassflow", "hlle", "hllc")):
                 if two_d:
@@ -234,6 +235,8 @@ def inverse1d(ctx, rng, idx):
         ri, mi, pi = _states(rng, n, gam)
         ci = np.sqrt(gam * pi / ri)
         ui = d * np.minimum(mi, 0.95 if name != "outsup" else 5.0) * ci * (1 if name != "sym" else rng.choice([-1, 1]))
+        if name in ("sym", "outsup", "outsub", "outsub_prim") and rng.random() < 0.3:
+            ui = ui * float(10 ** rng.uniform(-14, -4))        # nearly at rest everywhere (acoustic amplitudes)
         pe = float(pi[j] * rng.uniform(0.5, 1.0))
         par = {"type": name, "p": pe}
         if name in ("outsub", "outsub_prim"):
@@ -300,6 +303,8 @@ def inverse2d(ctx, rng, idx):
     ci = np.sqrt(gam * pi / ri)
     th = rng.uniform(0, 2 * np.pi, n)
     Vi = mi * ci * np.vstack([np.cos(th), np.sin(th)])
+    if name in ("sym", "outsup", "outsub") and rng.random() < 0.3:
+        Vi = Vi * float(10 ** rng.uniform(-14, -4))            # nearly at rest everywhere (acoustic amplitudes)
     j = int(rng.integers(n))
     par = {"type": name.split("-")[0]}
     if name == "sym":
